@@ -143,7 +143,8 @@ theorem C01_sys_independent_of_declaration_order (cfg : SysConfig) (asts : Name 
   have hwf' : SysWF cfg' asts :=
     { valid := hv', cc := h.cc, us := h.us, dcp := h.dcp, mdc := h.mdc, mdcE := h.mdcE,
       printed := fun a ha => h.printed a (h2.mem_iff.mpr ha),
-      wf := fun a ha => h.wf a (h2.mem_iff.mpr ha) }
+      wf := fun a ha => h.wf a (h2.mem_iff.mpr ha),
+      noRolling := fun a ha => h.noRolling a (h2.mem_iff.mpr ha) }
   have hd' : ∀ r ∈ rs, DatesOkFor cfg' asts r := by
     intro r hr a ha hc
     apply hd r hr a (h2.mem_iff.mpr ha)
@@ -226,6 +227,7 @@ example : SysWF exCfg exAsts where
     intro a ha _
     simp only [exCfg, exRouting, List.mem_cons, List.not_mem_nil, or_false] at ha
     rcases ha with rfl | rfl <;> decide
+  noRolling := by intro a _; simp only [exCfg]; split <;> rfl
 
 example : ∀ r ∈ exRecords, DatesOkFor exCfg exAsts r := by
   intro r _ a ha _ _
